@@ -331,6 +331,25 @@ def _slice_ok(lo, hi, field):
     return True
 
 
+def r02_6b(chk):
+    """Reader <-> file pairing in SimpleEopDatabase.__init__: the two IERS products share one column layout, so reading the
+    wrong one raises nothing -- `Finals` (dPsi, dEps: IAU 1980) must be built on `finals.<type>`, `Finals2000A` (dX, dY:
+    IAU 2000) on `finals2000A.<type>`, `TaiUtc` on `tai-utc.dat` (wave o: the 2000A reader built on finals.all put
+    ~100 mas of dPsi into dX)."""
+    f = chk.repo.func("beyond/dates/eop.py", "SimpleEopDatabase.__init__")
+    want = {"Finals": "finals.", "Finals2000A": "finals2000A.", "TaiUtc": "tai-utc.dat"}
+    seen = {}
+    for n in ast.walk(f.node):
+        if isinstance(n, ast.Call) and isinstance(n.func, ast.Name) and n.func.id in want:
+            lits = [c.value for a in n.args for c in ast.walk(a) if isinstance(c, ast.Constant) and isinstance(c.value, str)]
+            seen.setdefault(n.func.id, []).append("".join(lits))
+    for cls_, prefix in want.items():
+        got = seen.get(cls_, [])
+        ok = len(got) == 1 and got[0].startswith(prefix) and (cls_ == "TaiUtc" or not got[0][len(prefix):].strip("."))
+        chk.inst("R02.6", f"{f.ref}::{cls_}-file", ok, f"{cls_} reads `{got[0] if got else '?'}…`" if ok else
+                 f"{cls_} is built on {got}: expected a name starting with `{prefix}`", loc(f, f.node))
+
+
 def r02_6(chk):
     repo = chk.repo
     # (i) fields of Eop
@@ -560,6 +579,7 @@ def run(chk):
     chk.guard(r02_4, chk)
     chk.guard(r02_5, chk)
     chk.guard(r02_6, chk)
+    chk.guard(r02_6b, chk)
     chk.guard(r02_7, chk)
     chk.guard(r02_8, chk)
     from .common import conversion_is_a_read
